@@ -269,3 +269,54 @@ func TestC05(t *testing.T) {
 		}
 	})
 }
+
+// TestC05NameKeyCollide: field names and stored keys built from fragments
+// with the bytes a cache might use to join a name and a key ('-', ':', a
+// length digit), so that different (name, key) pairs have equal joins.
+func TestC05NameKeyCollide(t *testing.T) {
+	rapid.Check(t, func(rt *rapid.T) {
+		frag := func(name string) string {
+			return rapid.SampledFrom([]string{"a", "k", "1", "a-k", "k-1", "1-1", "a:k", "3:a", "a-k-1", "k:1"}).Draw(rt, name)
+		}
+		n1 := frag("name1")
+		n2 := frag("name2")
+		if n1 == n2 {
+			n2 = n2 + "-" + frag("name2b")
+		}
+		m := map[string]string{}
+		for i := rapid.IntRange(2, 8).Draw(rt, "nkeys"); i > 0; i-- {
+			k := frag("key")
+			if rapid.Bool().Draw(rt, "joined") {
+				k = k + "-" + frag("key2")
+			}
+			m[k] = fmt.Sprint(rapid.SampledFrom([]int{1, 2, 30, 300, 400, 5}).Draw(rt, "v"))
+		}
+		var pairs []lib.Pair
+		for k, v := range m {
+			pairs = append(pairs, lib.Pair{K: k, V: v})
+		}
+		pairs = lib.NewStore(pairs).Pairs()
+		lim1 := int64(rapid.SampledFrom([]int{0, 2, 100}).Draw(rt, "lim1"))
+		lim2 := int64(rapid.SampledFrom([]int{0, 20, 1000}).Draw(rt, "lim2"))
+		st := &lib.Stmt{Kind: "select", Fields: []lib.SelField{
+			{E: lib.Key()},
+			{E: lib.Call("int", lib.Value()), Alias: n1},
+			{E: lib.Bin("*", lib.Call("int", lib.Value()), lib.Int(10)), Alias: n2},
+		}}
+		w1 := lib.Bin(">", lib.Ref(n1, lib.TyInt), lib.Int(lim1))
+		w2 := lib.Bin(">", lib.Ref(n2, lib.TyInt), lib.Int(lim2))
+		if rapid.Bool().Draw(rt, "swap") {
+			w1, w2 = w2, w1
+		}
+		st.Where = lib.Bin(rapid.SampledFrom([]string{"&", "|"}).Draw(rt, "op"), w1, w2)
+		c := &c05Case{Stmt: st, Pairs: pairs, Batch: rapid.SampledFrom([]int{1, 2, 3}).Draw(rt, "batch")}
+		lib.Journal("C05", "c05", c)
+		msg, nt, labels := checkC05(c)
+		lib.Stats.Case(nt, c.Query+"|"+fmt.Sprint(pairs, c.Batch), append(labels, "name-key-collide"), func() any {
+			return map[string]any{"query": c.Query, "pairs": pairs, "batch": c.Batch}
+		})
+		if msg != "" {
+			fail(rt, "C05", "c05", msg, c)
+		}
+	})
+}
